@@ -36,8 +36,8 @@ def san_env(flavour, libdir, leaks, workdir, tag):
                            "detect_leaks=%d:handle_abort=1:print_summary=1" % (1 if leaks else 0))
     env["UBSAN_OPTIONS"] = "print_stacktrace=1:halt_on_error=1:exitcode=98"
     env["LSAN_OPTIONS"] = "exitcode=97:print_suppressions=0"
-    env["TSAN_OPTIONS"] = "halt_on_error=0:exitcode=66:second_deadlock_stack=1:history_size=4:log_path=%s" % \
-        os.path.join(workdir, "tsan_" + tag)
+    env["TSAN_OPTIONS"] = "halt_on_error=0:exitcode=66:second_deadlock_stack=1:history_size=4:suppressions=%s:log_path=%s" % \
+        (os.path.join(HERE, "tsan.supp"), os.path.join(workdir, "tsan_" + tag))
     return env
 
 
